@@ -50,10 +50,15 @@ func (b e1Batch) configs(seed int64) []e1.Config {
 // not hit (each has its own deterministic reproducer).
 func avoidList() []string {
 	var out []string
+	seen := map[string]bool{}
 	for _, k := range check.LoadKnown() {
 		switch k.Sig {
+		case "isolation/deferred-update-crosses-session-boundary":
+			if !seen[k.Sig] {
+				out = append(out, "deferred-update-crosses-session-boundary")
+			}
+			seen[k.Sig] = true
 		}
-		_ = k
 	}
 	return out
 }
@@ -133,5 +138,86 @@ func init() {
 			}
 		}
 		return c.Finish(res.Histories, res.Histories, "debug batch", nil)
+	}
+}
+
+func init() {
+	registry["C01"] = func(c *check.Ctx) int {
+		a := &acc{}
+		partE1(c, a, e1Batch{Profiles: []string{"view", "mixed", "module", "component", "subscribe", "departure"}, Histories: c.Pick(240, 2400), Steps: c.Pick(90, 160), MaxConns: 6, MaxSess: 3},
+			"at least 3 members were in one session, accepted changes of at least 3 state classes occurred and at least one view comparison ran",
+			func(s *e1.Stats) bool { return s.MaxMembers >= 3 && len(s.ClassesChanged) >= 3 && s.ViewCompares > 0 })
+		partConcurrent(c, a, "C01")
+		return a.finish(c)
+	}
+	registry["C02"] = func(c *check.Ctx) int {
+		a := &acc{}
+		partE1(c, a, e1Batch{Profiles: []string{"relay", "mixed", "custom", "module", "departure"}, Histories: c.Pick(240, 2400), Steps: c.Pick(90, 160), MaxConns: 6, MaxSess: 2},
+			"an accepted relay-causing request had at least 2 entitled recipients and at least one request was refused, all attributed",
+			func(s *e1.Stats) bool {
+				refused := 0
+				for _, n := range s.Refused {
+					refused += n
+				}
+				return marks(s, "relay:multi-recipient") && refused > 0
+			})
+		partConcurrent(c, a, "C02")
+		return a.finish(c)
+	}
+	registry["C04"] = func(c *check.Ctx) int {
+		a := &acc{}
+		partE1(c, a, e1Batch{Profiles: []string{"refusal", "mixed", "component", "module"}, Histories: c.Pick(240, 2400), Steps: c.Pick(90, 160), MaxConns: 5, MaxSess: 3},
+			"at least 5 distinct request kinds, at least one success and at least 3 distinct refusal reasons were answered and matched",
+			func(s *e1.Stats) bool { return len(s.Kinds) >= 5 && len(s.Accepted) >= 1 && distinctReasons(s) >= 3 })
+		reproDeferredCrossing(c, a)
+		return a.finish(c)
+	}
+	registry["C05"] = func(c *check.Ctx) int {
+		a := &acc{}
+		partE1(c, a, e1Batch{Profiles: []string{"owner"}, Histories: c.Pick(240, 2400), Steps: c.Pick(100, 160), MaxConns: 5, MaxSess: 2, Mods: []string{"vod", "o", "od", "vo"}},
+			"foreign delete, pose and asset attempts against existing entities all occurred, at least one of them after the owner had left",
+			func(s *e1.Stats) bool {
+				after := s.Marks["foreign-after-owner-left:entity_del"] + s.Marks["foreign-after-owner-left:pose"] + s.Marks["foreign-after-owner-left:asset_add"]
+				return marks(s, "foreign:entity_del", "foreign:pose", "foreign:asset_add") && after > 0
+			})
+		return a.finish(c)
+	}
+	registry["C12"] = func(c *check.Ctx) int {
+		a := &acc{}
+		partE1(c, a, e1Batch{Profiles: []string{"component"}, Histories: c.Pick(240, 2400), Steps: c.Pick(110, 180), MaxConns: 4, MaxSess: 2},
+			"accepted add, refused duplicate add, update of an existing and of a missing component, delete, list and a cascade by entity removal all occurred",
+			func(s *e1.Stats) bool {
+				return s.Accepted["comp_add"] > 0 && marks(s, "comp_add:duplicate", "comp_upd:existing", "comp_upd:missing") && s.Accepted["comp_del"] > 0 &&
+					s.Accepted["comp_list"] > 0 && s.Marks["cascade:entity_del"]+s.Marks["cascade:departure"] > 0
+			})
+		partStoreStress(c, a)
+		return a.finish(c)
+	}
+	registry["C13"] = func(c *check.Ctx) int {
+		a := &acc{}
+		partE1(c, a, e1Batch{Profiles: []string{"subscribe"}, Histories: c.Pick(240, 2400), Steps: c.Pick(120, 200), MaxConns: 6, MaxSess: 1},
+			"a component change happened with at least 2 subscribers and 1 non-subscriber present, and another with no subscriber at all",
+			func(s *e1.Stats) bool {
+				return marks(s, "comp-change:2-subscribers-1-other", "comp-change:no-subscriber")
+			})
+		return a.finish(c)
+	}
+	registry["C14"] = func(c *check.Ctx) int {
+		a := &acc{}
+		partE1(c, a, e1Batch{Profiles: []string{"custom"}, Histories: c.Pick(240, 2400), Steps: c.Pick(80, 140), MaxConns: 6, MaxSess: 2, Mods: []string{"", "vod"}},
+			"a body within 2 bytes of the limit was sent, or a recipient list contained a duplicate, a stranger or the sender",
+			func(s *e1.Stats) bool {
+				return s.Marks["custom:near-limit"] > 0 || s.Marks["custom:duplicate-recipient"]+s.Marks["custom:stranger-recipient"]+s.Marks["custom:self-recipient"] > 0
+			})
+		return a.finish(c)
+	}
+	registry["C16"] = func(c *check.Ctx) int {
+		a := &acc{}
+		partE1(c, a, e1Batch{Profiles: []string{"module"}, Histories: c.Pick(240, 2400), Steps: c.Pick(120, 200), MaxConns: 4, MaxSess: 2, Mods: []string{"vod", "vo"}},
+			"an older action was refused, an equal-timestamp action accepted and an asset replaced, with the result checked at a later joiner",
+			func(s *e1.Stats) bool {
+				return marks(s, "action:older-timestamp", "action:equal-timestamp", "asset:replacement-attempt") && s.Joins >= 2
+			})
+		return a.finish(c)
 	}
 }
